@@ -275,8 +275,10 @@ def crash_points(writes, final, rng, tier):
     return sorted(k for k in ks if 0 <= k < tot), tot
 
 # ------------------------------------------------------------------------------------------------
-def check_table(env, params, rng, tier, full=False):
-    """runs (i), (ii), (iii) for one table; returns list of (signature, text, payload)"""
+def check_table(env, params, rng, tier, full=False, light=False):
+    """runs (i), (ii), (iii) for one table; returns list of (signature, text, payload).
+    light (million-coefficient tables in the quick tier): (i) in full — bytes, one front-to-back pass, cfitsio call sequences —,
+    (ii) at a dozen crash points, (iii) single stdio faults at every op in the last stretch of the primary data unit and of the file"""
     fails = []
     c = mk_case(params)
     env.stats["tables"] += 1
@@ -289,7 +291,14 @@ def check_table(env, params, rng, tier, full=False):
     want = okc(c.lines(read_back=True))
     # ---- model: bytes, schedule, steps
     mb = env.fresh(".model.fits")
-    m = env.model_cmds(["bytes T %s %s" % (tbl, mb)])["T"]
+    mtbl = tbl
+    if light:
+        # the model is consulted on a small table of the same shape class (dimension count, aux keys): its cfitsio call
+        # sequence and writer outcome do not depend on the axis lengths; the bytes of the large table are not modelled here
+        sp = dict(params); sp["axes"] = [4 + i for i in range(len(params["axes"]))]
+        mtbl = env.fresh(".small.tbl")
+        open(mtbl, "w").write("\n".join(mk_case(sp).lines(for_input=True)) + "\n")
+    m = env.model_cmds(["bytes T %s %s" % (mtbl, mb)])["T"]
     if m[0] == "EXC":
         fail("model:exception", "model driver failed on the table: " + " ".join(m)); return fails
     minfo = dict(kv.split("=", 1) for kv in m)
@@ -314,7 +323,7 @@ def check_table(env, params, rng, tier, full=False):
         sched_equal = False
         fail("sched:not-front-to-back", "the writer's positioned writes are not one front-to-back pass over the file (model: sched t = [(0, cf_bytes t)]): %d separate runs, offsets %s; reads of the output file: %d" %
              (len(co), [o for o, _ in co][:12], sum(1 for o in ops if o[0] == "R")), {"runs": [[o, len(d)] for o, d in co][:60]})
-    if final != final_m:
+    if final != final_m and not light:
         sched_equal = False
         k = next((i for i, (a, b) in enumerate(zip(final, final_m)) if a != b), min(len(final), len(final_m)))
         fail("sched:bytes-differ", "bytes written by cfitsio differ from the model's cf_bytes at offset %d (lengths %d / %d): %r vs %r" % (k, len(final), len(final_m), final[k - k % 80:k - k % 80 + 80], final_m[k - k % 80:k - k % 80 + 80]))
@@ -329,6 +338,8 @@ def check_table(env, params, rng, tier, full=False):
         fail("steps:mem-writer", "cfitsio calls made by write_fits_mem differ from the model's steps: real %s, model %s" % ([n for n, _ in calls_m], steps_mem))
     # ---- (ii) crash enumeration on the recorded trace
     ks, tot = crash_points(writes, final, rng, tier)
+    if light:
+        ks = sorted(set(ks[:: max(1, len(ks) // 10)] + ks[-2:]))
     files = []
     for k in ks:
         f = env.p("crash_%d.fits" % k)
@@ -343,6 +354,8 @@ def check_table(env, params, rng, tier, full=False):
             break
         mks.append(k); used += k + 2880
     mks = set(mks)
+    if light:
+        mks = set()
     mcmds = ["crash k%d %s %d %s" % (k, tbl, k, env.p("mcrash_%d.fits" % k)) for k in mks] if sched_equal else []
     mres = env.model_cmds(mcmds) if mcmds else {}
     worst = None
@@ -384,6 +397,20 @@ def check_table(env, params, rng, tier, full=False):
     nsteps = len(steps_file)
     runs = []
     idx = list(range(nops)) if (nops <= 60 or full) else sorted(set([0, 1, nops - 3, nops - 2, nops - 1] + [rng.below(nops) for _ in range(30 if tier == "quick" else 60)]))
+    if light:
+        # every op from shortly before the end of the primary data unit to the end of the file (the knot and extents HDUs are
+        # small): this is where a size-dependent flush / close / reposition of a large table would sit
+        wpos, first_after = 0, nops
+        dend = (len(final) // 2880 - 2 * (c.ndim + 1)) * 2880 if len(final) > 2880 * 2 * (c.ndim + 2) else 0
+        n_ = 0
+        for o in ops:
+            if o[0] in ("W", "S", "F", "C", "T"):
+                if o[0] == "W":
+                    wpos = int(o[1]) + len(o[2])
+                    if wpos >= dend - 8192 and first_after == nops:
+                        first_after = n_
+                n_ += 1
+        idx = sorted(set([0, 1] + list(range(max(0, first_after - 2), nops))))[:80]
     for i in idx:
         runs.append({"kind": "stdio", "failop": i, "writer": "file"})
     for i in idx[:: max(1, len(idx) // 6)] + idx[-2:]:
@@ -393,7 +420,9 @@ def check_table(env, params, rng, tier, full=False):
         if lim > 0:
             runs.append({"kind": "rlimit", "fsize": lim, "writer": "file"})
             runs.append({"kind": "rlimit", "fsize": lim, "writer": "cfile"})
-    sidx = list(range(nsteps)) if (nsteps <= 70 or full) else sorted(set([0, 1, 2, nsteps - 1, nsteps - 2, nsteps - 3, nsteps - 4] + [rng.below(nsteps) for _ in range(40)]))
+    if light:
+        runs = [r_ for r_ in runs if r_["kind"] == "stdio" and r_["writer"] == "file" and not r_.get("sticky")]
+    sidx = [] if light else list(range(nsteps)) if (nsteps <= 70 or full) else sorted(set([0, 1, 2, nsteps - 1, nsteps - 2, nsteps - 3, nsteps - 4] + [rng.below(nsteps) for _ in range(40)]))
     for j in sidx:
         runs.append({"kind": "api", "apifail": j, "writer": "file"})
     for j in sidx[:: max(1, len(sidx) // 12)] + sidx[-2:]:
@@ -411,7 +440,7 @@ def check_table(env, params, rng, tier, full=False):
         r["ops"], r["calls"] = parse_log(r["log"])
         bad = [i for i, (_, st) in enumerate(r["calls"]) if st != 0]
         r["failed_call"] = bad[0] if bad else None
-        mcmds.append("run %s %s %s new %s" % (r["id"], tbl, "mem" if r["writer"] in ("mem", "cmem") else "file", "-" if r["failed_call"] is None else str(r["failed_call"])))
+        mcmds.append("run %s %s %s new %s" % (r["id"], mtbl, "mem" if r["writer"] in ("mem", "cmem") else "file", "-" if r["failed_call"] is None else str(r["failed_call"])))
     mres = env.model_cmds(mcmds)
     left = [(r["id"], r["out"]) for r in runs if r["writer"] in ("file", "cfile") and os.path.exists(r["out"]) and os.path.getsize(r["out"]) > 0]
     lres, _ = env.read(left) if left else ({}, None)
@@ -511,6 +540,8 @@ def run(info, out):
     fails = []
     for n, prm in enumerate(tables):
         fails += check_table(env, prm, rng.fork("table%d" % n), tier)
+    # a table at a size boundary (2^20 coefficients): full treatment in the thorough tier, light in the quick tier
+    fails += check_table(env, {"axes": [1024, 1024], "seed": 21, "coef": "smooth"}, rng.fork("million"), tier, light=(tier == "quick"))
     searched = 0
     if not info["proof_ok"] and not [f for f in fails if f[0] not in open_signatures("C08")]:      # a reproduced known finding is not a failing input
         for i in range(40):
